@@ -223,9 +223,9 @@ def gen_case(rnd, prop, tier):
                 params['maxsize_mb'] = r_ * 0.5 * (msz[0] + msz[1]) * 8 / 2 ** 20
     elif mech == 'adagrid':
         tg = []
-        if 3 <= d <= 5 and rnd.random() < 0.3:
-            tg = [rnd.choice(attrs)]
-        params = dict(threshold=rnd.choice([0.0, 3.0, 5.0]), targets=tg, split=rnd.choice([None, None, [0.1, 0.1, 0.8], [1, 2, 3]]),
+        if 3 <= d <= 5 and rnd.random() < 0.6:
+            tg = [rnd.choice(attrs)] if rnd.random() < 0.4 else rnd.sample(attrs, 2)      # two targets: aggregated marginals with three children
+        params = dict(threshold=rnd.choice([0.0, 3.0, 5.0]) if len(tg) < 2 else rnd.choice([1.0, 3.0, 5.0]), targets=tg, split=rnd.choice([None, None, [0.1, 0.1, 0.8], [1, 2, 3]]),
                       warm_start=rnd.random() < 0.5)
     pol = rnd.choice(['faithful', 'faithful', 'zero', 'outlier', 'blackout', 'allsup', 'argmin', 'repeat', 'mixed', 'mixed'])
     rates = {'faithful': {}, 'zero': {'zero': 1.0}, 'outlier': {'outlier': 0.6}, 'blackout': {'blackout': 0.5}, 'allsup': {'allsup': 0.7},
